@@ -105,6 +105,26 @@ func init() {
 			}
 			return Val{T: r, S: "Int"}
 		},
+		"google.golang.org/protobuf/proto.Clone": protoClone,
+		"google.golang.org/protobuf/proto.Equal": func(fr *Frame, st *State, a []Val, _ ssa.Instruction) Val {
+			u := fr.u
+			f := u.enc.declFun("proto_equal", []string{"Int", "Int"}, "Bool")
+			t := app(f, a[0].T, a[1].T)
+			u.assume(implies(eq(a[0].T, a[1].T), t))
+			u.note("proto.Equal: uninterpreted relation on message references (reflexive); message contents not modelled")
+			return boolV(t)
+		},
+		"google.golang.org/protobuf/proto.Size": func(fr *Frame, st *State, a []Val, _ ssa.Instruction) Val {
+			u := fr.u
+			v := fr.havocVal(types.Typ[types.Int], "protosize")
+			u.assume(app(">=", v.T, "0"))
+			u.note("proto.Size: unconstrained non-negative integer (encoding not modelled)")
+			return v
+		},
+		"github.com/google/uuid.NewRandom": func(fr *Frame, st *State, a []Val, in ssa.Instruction) Val {
+			sig := in.(ssa.CallInstruction).Common().Signature()
+			return Val{Tup: fr.freshResults(sig, "uuid")}
+		},
 		"errors.New":  freshErr,
 		"fmt.Errorf":  freshErr,
 		"errors.Is": func(fr *Frame, st *State, a []Val, _ ssa.Instruction) Val {
@@ -161,4 +181,32 @@ func calRange(name string, lo, hi int) trustedFn {
 		u.note("calendar function %s is an uninterpreted function of the instant with its documented range (package time trusted)", name)
 		return intV(t)
 	}
+}
+
+// protoClone: proto.Clone(m) returns a fresh message of the same dynamic type whose fields equal m's
+// (nested messages are shared in the model: a shallow copy; sound as long as the caller does not mutate
+// nested messages in place through the clone - assumption listed).
+func protoClone(fr *Frame, st *State, a []Val, in ssa.Instruction) Val {
+	u := fr.u
+	ci := in.(ssa.CallInstruction)
+	arg := ci.Common().Args[0]
+	if mi, ok := arg.(*ssa.MakeInterface); ok {
+		if pt, ok := mi.X.Type().Underlying().(*types.Pointer); ok && isStructT(pt.Elem()) {
+			x := fr.get(mi.X)
+			if x.Loc == nil {
+				r := u.newRef(st)
+				stT := pt.Elem()
+				s := stT.Underlying().(*types.Struct)
+				for i := 0; i < s.NumFields(); i++ {
+					h, _ := u.fieldHeap(stT, i)
+					u.heapStoreAt(st, h, r, sel(u.heapCur(st, h), x.T))
+				}
+				u.note("proto.Clone modelled as a shallow field-wise copy into a fresh object (nested messages shared)")
+				res := fr.box(st, Val{T: ite(eq(x.T, "0"), "0", r), S: "Int"}, mi.X.Type())
+				return res
+			}
+		}
+	}
+	sig := ci.Common().Signature()
+	return fr.freshResults(sig, "clone")[0]
 }
